@@ -982,3 +982,34 @@ def oracle_resolverows(line, out):
         if not set(pj) <= set(pa) | set(pb):
             return "a joined row has a pair that is in neither part"
     return None
+
+
+def oracle_topn(line, out):
+    op, kv = kv_of(line)
+    if out.startswith("ERR"):
+        return f"exception {out}"
+    bins, hs = ints(kv.get("B", "")), ints(kv.get("H", ""))
+    count, res, start = int(kv["count"]), int(kv["res"]), int(kv["start"])
+    got = [tuple(int(x) for x in t.split(":")) for t in out.split(",") if t]
+    keep = sorted(zip(bins, hs), key=lambda p: -p[1])[:count] if count < len(bins) else list(zip(bins, hs))
+    want = sorted((b * res + (-(-res // 2) - 1 + start), h) for b, h in keep)
+    if got != want:
+        return f"peaks kept {got} are not the {count} highest of the correlation at their bin centres {want}"
+    return None
+
+
+def oracle_join_cigar(line, out):
+    """C03 on joined records: the HitEnum of whatever record the join returns must replay to its pairs"""
+    if out == "None" or out.startswith("ERR"):
+        return None if out == "None" else f"exception {out}"
+    j, pj = parse_row_kv(out)
+    cig = j.get("cigar", "")
+    if not pj:
+        return None
+    rev = j["rev"] == "1"
+    runs = parse_cigar(cig)
+    if not runs:
+        return "empty or malformed HitEnum for a joined record with pairs"
+    if replay_cigar(runs, pj[0], rev) != pj:
+        return f"replaying the HitEnum {cig} of a joined record does not give its listed pairs"
+    return None
